@@ -205,6 +205,77 @@ pub fn check(case: &Case) -> Outcome {
     out
 }
 
+/// One frame (or one header) carrying a given frame number / start-sample number.
+#[derive(Clone, Debug, Serialize, Deserialize)]
+pub struct NumCase {
+    pub number: u64,
+    /// false: fixed blocking through `encode_fixed_size_frame` (number < 2^31); true: a variable-blocking header (number < 2^36)
+    pub variable: bool,
+    pub channels: usize,
+    pub bps: usize,
+    pub block: usize,
+    pub seed: u64,
+}
+
+pub fn check_number(c: &NumCase) -> Outcome {
+    use flacenc::component::{ChannelAssignment, FrameHeader, FrameOffset, StreamInfo};
+    use flacenc::source::{Fill, FrameBuf};
+    let mut out = Outcome::new(crate::util::fnv(serde_json::to_string(c).unwrap_or_default().as_bytes()));
+    let bits = 64 - c.number.leading_zeros();
+    out.class(format!("number-bits:{}", match bits { 0..=7 => "<=7", 8..=11 => "8-11", 12..=16 => "12-16", 17..=21 => "17-21", 22..=26 => "22-26", 27..=31 => "27-31", _ => "32-36" }));
+    out.nontrivial = bits > 7;
+    if c.variable {
+        let Ok(Ok(h)) = catch(|| FrameHeader::new(c.block, ChannelAssignment::Independent(c.channels as u8), c.bps, 44100, FrameOffset::StartSample(c.number))) else {
+            out.class("skipped:header-constructor(C18)");
+            return out;
+        };
+        let r = catch(|| {
+            let mut sink = ByteSink::new();
+            h.write(&mut sink).map_err(|e| format!("{e:?}"))?;
+            let b = sink.into_inner();
+            let (rest, back) = parser::frame_header::<E>(true)(&b).map_err(|e| format!("parse: {}", format!("{e:?}").chars().take(80).collect::<String>()))?;
+            let mut again = ByteSink::new();
+            back.write(&mut again).map_err(|e| format!("{e:?}"))?;
+            Ok::<_, String>((rest.len(), again.into_inner() == b))
+        });
+        match r {
+            Ok(Ok((0, true))) => {}
+            Ok(Ok((rest, same))) => out.viol("header-roundtrip-differs", format!("start sample {}: {rest} bytes left, same bytes {same}", c.number)),
+            Ok(Err(e)) => out.viol("parser-rejects-emitted-header", format!("start sample {}: {e}", c.number)),
+            Err(p) => out.viol(format!("header-parser-panic:{}", normalise(&p.sig())), format!("{} at {}", p.msg, p.loc)),
+        }
+        return out;
+    }
+    let (Ok(info), Ok(mut fb), Ok(vc)) = (StreamInfo::new(44100, c.channels, c.bps), FrameBuf::with_size(c.channels, c.block), enc::verified(&crate::gen::CfgSpec { block_size: c.block.max(32), ..Default::default() })) else {
+        out.class("skipped:setup");
+        return out;
+    };
+    let mut rng = crate::util::Sm64::new(c.seed);
+    let hi = (1i64 << (c.bps - 1)) - 1;
+    let v: Vec<i32> = (0..c.block * c.channels).map(|_| rng.range_i64(-hi / 4, hi / 4) as i32).collect();
+    if fb.fill_interleaved(&v).is_err() {
+        out.class("skipped:setup");
+        return out;
+    }
+    let Ok(Ok(f)) = catch(|| flacenc::encode_fixed_size_frame(&vc, &fb, c.number as usize, &info)) else {
+        out.class("skipped:encode(C17)");
+        return out;
+    };
+    let r = catch(|| {
+        let fbts = enc::frame_bytes(&f, 1 << 24)?;
+        let (rest, back) = parser::frame::<E>(&info, true)(&fbts).map_err(|e| format!("parse: {}", format!("{e:?}").chars().take(80).collect::<String>()))?;
+        let again = enc::frame_bytes(&back, 1 << 24)?;
+        Ok::<_, String>((rest.len(), again == fbts, back.decode() == f.decode(), back.verify().is_ok()))
+    });
+    match r {
+        Ok(Ok((0, true, true, true))) => {}
+        Ok(Ok((rest, same, audio, ver))) => out.viol("frame-roundtrip-differs", format!("frame number {}: {rest} bytes left, same bytes {same}, same audio {audio}, verifies {ver}", c.number)),
+        Ok(Err(e)) => out.viol("parser-rejects-emitted-frame", format!("frame number {}: {e}", c.number)),
+        Err(p) => out.viol(format!("frame-parser-panic:{}", normalise(&p.sig())), format!("{} at {}", p.msg, p.loc)),
+    }
+    out
+}
+
 pub fn case_strategy(co: CfgOpts, io: InOpts) -> BoxedStrategy<Case> {
     (stream_case_strategy(co, io, true), proptest::collection::vec((1u8..=126, prop_oneof![Just(0usize), 1usize..=40, Just(300usize)]), 0..=3))
         .prop_map(|(base, meta)| Case { meta: if base_seed_even(&base) { meta } else { vec![] }, base })
@@ -217,7 +288,7 @@ fn base_seed_even(b: &StreamCase) -> bool {
 
 pub fn run(ctx: &Ctx) {
     ctx.rule(
-        "cases = generated streams (all entry points, optional extra metadata blocks); oracle: parser::stream consumes all input, the tree verifies, re-serialises to identical bytes and decodes to the original samples; every frame and every subframe serialised alone round-trips through parser::frame / parser::subframe (consumed bits = count_bits); orders, precision, shift, coefficients, partition orders and Rice parameters agree with the harness' reference reader; \
+        "cases = generated streams (all entry points, optional extra metadata blocks); oracle: parser::stream consumes all input, the tree verifies, re-serialises to identical bytes and decodes to the original samples; every frame and every subframe serialised alone round-trips through parser::frame / parser::subframe (consumed bits = count_bits); orders, precision, shift, coefficients, partition orders and Rice parameters agree with the harness' reference reader; a second family writes one frame (fixed blocking, frame number over the whole 31-bit range) or one header (variable blocking, start sample over the whole 36-bit range), boundary-dense, and parses it back; \
          non-trivial = (predictive subframe and bps != 16) or a frame with a non-trivial header code (explicit block size / sample rate, multi-byte frame number, stereo assignment)",
     );
     let per = ctx.tier.scale(1200, 10);
@@ -230,12 +301,26 @@ pub fn run(ctx: &Ctx) {
             c
         })
     }, check);
+    // one frame / one header per frame number or start-sample number, over the whole 31- / 36-bit ranges
+    ctx.search("frame-number", 16, per * 2, &|| {
+        let number = prop_oneof![
+            3 => (0u32..=36, -3i64..=3).prop_map(|(b, d)| ((1i128 << b) + d as i128).clamp(0, (1i128 << 36) - 1) as u64),
+            3 => any::<u64>().prop_map(|x| x & ((1u64 << 36) - 1)),
+            3 => any::<u64>().prop_map(|x| x & ((1u64 << 31) - 1)),
+            1 => (0u32..36, any::<u64>()).prop_map(|(b, x)| (1u64 << b) | (x & ((1u64 << b) - 1))),
+        ];
+        (number, any::<bool>(), 1usize..=3, proptest::sample::select(vec![8usize, 16, 24]), prop_oneof![Just(32usize), Just(192usize), 1usize..=300], any::<u64>())
+            .prop_map(|(number, variable, channels, bps, block, seed)| NumCase { number: if variable { number } else { number & ((1u64 << 31) - 1) }, variable, channels, bps, block, seed })
+    }, check_number);
     if ctx.tier == crate::core::Tier::Thorough {
         crate::fuzzrun::campaign(ctx, "fz_encode", 8, crate::fuzzrun::runs(30_000), 24_000);
     }
 }
 
 pub fn replay(path: &str) -> Result<Outcome, String> {
-    let (_k, case): (String, Case) = crate::core::load_replay(path)?;
-    Ok(check(&case))
+    let (kind, case) = crate::core::replay_kind(path)?;
+    if kind == "frame-number" {
+        return Ok(check_number(&serde_json::from_value(case).map_err(|e| e.to_string())?));
+    }
+    Ok(check(&serde_json::from_value(case).map_err(|e| e.to_string())?))
 }
